@@ -179,6 +179,26 @@ PROPS["C07"] = {
     "assumptions": [],
 }
 
+PROPS["C08"] = {
+    "features": None,
+    "technique": "Lean 4 proof: drain of the modelled Cursor.chain(payload) = header bytes ++ payload for every payload kind, consumer and buffer-size sequence (measure induction); differential runs of into_read / into_async_read",
+    "level_text": "Machine-checked theorems on the model of into_read/into_async_read: `stream_is_header_then_payload` (for every message and listing, payload source kind none/blocking/async with any fragmentation, not-ready and Interrupted results, both consumption interfaces and every sequence of positive read-buffer sizes, the drained stream is exactly to_bytes() followed by exactly the payload's bytes, then end of stream), `bridges_agree` (a blocking payload through the async interface and an async payload through the blocking interface deliver the same bytes), `empty_payload`. Tie to the code: seeded messages x payload kinds x fragmented/not-ready/interrupted payload scripts (0 B to 70 KB, MiBs thorough) x both real interfaces x buffer-size sequences 1 B-64 KiB; drained bytes and end status diffed against the model and checked against header+payload directly.",
+    "level_note": "Partial: io::Cursor, std io::Chain / futures Chain, AllowStdIo and futures_executor::block_on are modelled libraries (their logic is transcribed in Model/Stream.lean); the ipp code contributes the chaining order and the three-way payload dispatch.",
+    "design_ref": "DESIGN.md section 9, C08",
+    "trusted_base": STREAM_TB + ["io::Cursor, io::Chain, futures Chain, AllowStdIo, block_on transcribed in Model/Stream.lean"],
+    "assumptions": ["read buffers are non-empty (1 B to 64 KiB)"],
+}
+
+PROPS["C20"] = {
+    "features": None,
+    "technique": "Lean 4 proof: fromJson(toJson m) = m on the model of the serde derive (field/variant names regenerated from the Rust types); differential runs through real serde_json",
+    "level_text": "Machine-checked theorems on the model of #[derive(Serialize, Deserialize)]: `message_roundtrip` (for every header and every message whose maps are canonical – in particular every message of C01's domain, `domain_of_C01` – deserialising the serialised JSON value reproduces header, groups, names and values), `value_roundtrip` (all 22 kinds incl. raw-octet values and nested collections), `payload_not_serialised`, `skipped_pin`. Field and variant identifiers, the skipped field and the absence of serde renames are extracted from the Rust sources on every run. Tie to the code: seeded messages are serialised by the real derive with serde_json; the JSON value (canonically rendered) is diffed against the model's; real from_str must give back the message with an empty payload.",
+    "level_note": "Partial: serde's derive conventions (externally tagged enums, maps as objects, Bytes as number arrays, char as a one-character string – kept atomic in the model) and serde_json are modelled libraries.",
+    "design_ref": "DESIGN.md section 9, C20",
+    "trusted_base": CODEC_TB + ["serde derive conventions and serde_json, Model/Json.lean"],
+    "assumptions": ["a group's map key equals the name stored in the attribute"],
+}
+
 ALL_IDS = ["C%02d" % i for i in range(1, 21)]
 
 NOT_YET = "not claimed in this revision: the theorem/correspondence pair for this property is not built yet (see DESIGN.md section 13)"
